@@ -48,6 +48,10 @@ func diffRange(known string, diffs []diffmatchpatch.Diff) (start, end int) {
 func docDiff(id string, doc1 *indexedDocument, doc1Start, doc1End int, doc2 *indexedDocument, doc2Start, doc2End int) []diffmatchpatch.Diff {
 	chars1 := doc1.runes[doc1Start:doc1End]
 	chars2 := doc2.runes[doc2Start:doc2End]
+	// go-diff's half-match optimization appends to sub-slices of its arguments,
+	// which stores into their backing array. doc2 is a corpus document shared by
+	// every concurrent Match call, so diff against a private copy of its runes.
+	chars2 = append([]rune(nil), chars2...)
 
 	dmp := diffmatchpatch.New()
 	diffs := dmp.DiffMainRunes(chars1, chars2, false)
